@@ -61,7 +61,9 @@ FpClauses(cfg, gh, n) ==
         : j \in 1..Len(n.fp) }
 
 \* sweep of all IPv4 Identification values (when the node carries one): no transmitted reply may be malformed
-SweepClauses(n) == IF "sweep" \in DOMAIN n /\ n.sweep.bad > 0 THEN {"FpWellFormed"} ELSE {}
+SweepClauses(n) == IF "sweep" \in DOMAIN n
+                     THEN (IF n.sweep.bad > 0 THEN {"FpWellFormed"} ELSE {}) \cup (IF n.sweep.passmod > 0 THEN {"PassUnmodified"} ELSE {})
+                     ELSE {}
 
 Init == /\ sys \in 1..Len(Systems)
         /\ node = Systems[sys].init
